@@ -80,6 +80,32 @@ fn main() {
             let mut r = noodles_bam::io::Reader::from(BufReader::with_capacity(16, InterruptAt { inner: raw, pos: 0, trigger, fired: false }));
             r.read_header()?; let mut n = 0; let mut rec = noodles_bam::Record::default(); while r.read_record(&mut rec)? != 0 { n += 1; } Ok(n) }), 1);
     }
+    // the same stream through a source that hands out ONE byte per read and is interrupted on every 3rd call: now the header
+    // sub-reader's own BufReader cannot slurp the whole text at once and discard_to_end has to read (round-8 sub-agent's schedule)
+    {
+        struct OneByte<R> { inner: R, calls: usize }
+        impl<R: Read> Read for OneByte<R> {
+            fn read(&mut self, buf: &mut [u8]) -> io::Result<usize> {
+                self.calls += 1;
+                if self.calls % 3 == 0 { return Err(io::Error::from(io::ErrorKind::Interrupted)); }
+                let n = buf.len().min(1);
+                self.inner.read(&mut buf[..n])
+            }
+        }
+        use noodles_sam::alignment::io::Write as _;
+        let header: noodles_sam::Header = "@HD\tVN:1.6\n@CO\tc\n".parse().unwrap();
+        let mut w = noodles_bam::io::Writer::from(Vec::new());
+        w.write_header(&header).unwrap();
+        let mut bytes = w.into_inner();
+        let l_text = u32::from_le_bytes(bytes[4..8].try_into().unwrap()) as usize;
+        let at = 8 + l_text;
+        bytes.splice(at..at, std::iter::repeat(0u8).take(8));
+        bytes[4..8].copy_from_slice(&((l_text + 8) as u32).to_le_bytes());
+        let raw: &'static [u8] = Box::leak(bytes.into_boxed_slice());
+        report("raw bam header (1-byte reads, Interrupted every 3rd call, 8 NULs of padding)", with_watchdog(move || {
+            let mut r = noodles_bam::io::Reader::from(OneByte { inner: raw, calls: 0 });
+            r.read_header()?; Ok(0) }), 0);
+    }
     if bad > 0 { println!("VIOLATED: {bad} readers do not deliver the records when the source is interrupted now and then"); std::process::exit(1); }
     println!("holds");
 }
